@@ -51,4 +51,25 @@ theorem F14_single_remock_ok :
     ∧ (run Cfg.fixed init2 [.mockH 0 0 "A" .ap 0, .reset 0, .mockH 0 0 "A" .ap 0, .reset 0]).map (fun s => s.vars 0)
       = some (.val 0) := by decide
 
+/-- F27: the full statement `C07.SlotIsTypeIndex` is false for the code as it is — `methodIndexOf` compares names only, so
+    with an embedded foreign unexported `ecdh` the own method `ecdh` (position 3) is looked up at position 2. -/
+theorem F27_same_name_foreign_method :
+    let ms := sortMeths ["ecdh", "NewKey", "ecdh@crypto/ecdh", "GenerateKey"]
+    ms = ["GenerateKey", "NewKey", "ecdh@crypto/ecdh", "ecdh"] ∧ methodIndexOf ms "ecdh" = 2 ∧ ms.idxOf "ecdh" = 3 := by decide
+
+def init3 : St := St.init (fun _ => sortMeths ["B", "A"]) (fun _ => 0) (fun _ => .val 0) (fun _ => [0, 0])
+
+/-- F28: one variable mocked through two builders — builder 1's first mock installs a fresh itab that knows only `B`
+    (builder 0's `A` is gone), and after both Resets the variable holds builder 0's stale fake interface instead of nil. -/
+theorem F28_two_builders_one_variable :
+    (run Cfg.fixed init3 [.mock 0 0 "A" .ap 0, .mock 1 0 "B" .ap 0]).map (fun s => (callSlot s 0 "A", callSlot s 0 "B"))
+      = some (some .notImpl, some (.stub 1))
+    ∧ (run Cfg.fixed init3 [.mock 0 0 "A" .ap 0, .mock 1 0 "B" .ap 0, .reset 0, .reset 1]).map (fun s => s.vars 0)
+      = some (.fake 0 0) := by decide
+
+/-- F29: a second `Reset` of the same builder writes the old backup over the value the test assigned after the first one -/
+theorem F29_reset_again_clobbers_assignment :
+    (run Cfg.fixed init3 [.mock 0 0 "A" .ap 0, .reset 0, .assign 0 7, .reset 0]).map (fun s => s.vars 0) = some (.val 0) := by
+  decide
+
 end C07F
